@@ -11,7 +11,7 @@ use oracle::rng::mix;
 use serde_json::json;
 
 pub const ID: &str = "C16";
-pub const FAMS: [&str; 2] = ["cell", "crafted"];
+pub const FAMS: [&str; 3] = ["cell", "crafted", "exact-dark-count"];
 
 pub fn jobs(ctx: &Ctx) -> Vec<Job> {
     let mut jobs = Vec::new();
@@ -40,10 +40,22 @@ pub fn jobs(ctx: &Ctx) -> Vec<Job> {
             jobs.push(Job::crafted(FAMS[1], crate::job::CRAFT_TARGET, t, v, (k % 4) as usize, mask, mix(ctx.seed, k)));
         }
     }
+    for (v, dk) in Job::dark_count_cells() {
+        k += 1;
+        jobs.push(Job::dark_count(FAMS[2], dk, v, (k % 2) as usize, (k % 8) as usize, mix(ctx.seed, k)));
+    }
     jobs
 }
 
 pub fn observe(_ctx: &Ctx, st: &mut Stats, job: &Job) {
+    let owned = match job.materialise() {
+        Some(j) => j,
+        None => {
+            st.count("dark_count_searches_without_result", 1);
+            return;
+        }
+    };
+    let job = &owned;
     let cfg = job.config();
     st.eval();
     let qr = match adapter::build(&cfg) {
